@@ -16,6 +16,23 @@ pub const STRINGS: &[&str] = &[
     "\u{a0}nbsp", "emoji🚀", "@home", "50%", "semi;colon", "q?", "#1",
 ];
 
+/// characters whose Unicode upper- or lower-case mapping has a different UTF-8 length than the character
+/// (U+0390 2->6, U+0149 2->3, U+017F/U+0131 2->1, U+0130 2->3 lower, ligatures U+FB00..06 3->2, ß 2->2 "SS",
+/// U+1E9E 3->2 lower, U+2C65 3->2): any code that takes an offset in a case-mapped copy and uses it on the
+/// original text goes wrong on them
+pub const CASE_LEN: &[char] = &['\u{390}', '\u{149}', '\u{17f}', '\u{131}', '\u{130}', '\u{fb00}', '\u{fb01}', '\u{fb02}', '\u{fb03}',
+    '\u{fb04}', '\u{fb05}', '\u{fb06}', 'ß', '\u{1e9e}', '\u{2c65}', '\u{1f0}', '\u{3b0}'];
+pub const CASE_LEN_STRINGS: &[&str] = &["\u{390}\u{390}\u{390}", "\u{fb01}\u{fb01}é", "\u{149}", "\u{17f}", "I\u{130}\u{131}i", "stra\u{df}e", "\u{1e9e}x",
+    "a\u{fb03}x \u{390}", "\u{17f}\u{17f}\u{17f}\u{17f}", "\u{2c65}\u{149}\u{149}"];
+
+/// a string literal with 1–4 such characters among ordinary ones
+pub fn caselen_string(r: &mut Rng) -> String {
+    if r.chance(1, 2) { return r.pick(CASE_LEN_STRINGS).to_string(); }
+    let n = 1 + r.below(6);
+    let k = r.below(n);
+    (0..n).map(|i| if i == k || r.chance(1, 3) { *r.pick(CASE_LEN) } else { *r.pick(&['a', ' ', 'é', 'Z', '1', '日', '-']) }).collect()
+}
+
 pub fn ident(r: &mut Rng, hazard_pct: u64) -> String {
     if r.chance(hazard_pct, 100) {
         r.pick(HAZARD_IDENTS).to_string()
@@ -36,7 +53,9 @@ pub fn field(r: &mut Rng, hazard_pct: u64) -> String {
     if r.chance(1, 6) { format!("{}.{}", ident(r, hazard_pct), ident(r, 0)) } else { ident(r, hazard_pct) }
 }
 pub fn string(r: &mut Rng) -> String {
-    if r.chance(1, 6) {
+    if r.chance(1, 7) {
+        caselen_string(r)
+    } else if r.chance(1, 6) {
         let n = r.below(6);
         (0..n).map(|_| *r.pick(&['a', ' ', 'é', '1', '(', ')', '=', '\'', 'Z', '\t', '-', '.'])).collect()
     } else {
@@ -148,6 +167,20 @@ pub fn query(r: &mut Rng, hazard_pct: u64) -> Command {
         event_sequence,
     }
 }
+/// a QUERY whose text contains at least one string literal with length-changing characters
+pub fn query_caselen(r: &mut Rng) -> Command {
+    let mut q = query(r, 0);
+    if let Command::Query { context_id, since, where_clause, return_fields, .. } = &mut q {
+        match r.below(4) {
+            0 => *context_id = Some(caselen_string(r)),
+            1 => *since = Some(caselen_string(r)),
+            2 => *where_clause = Some(Expr::Compare { field: field(r, 0), op: CompareOp::Eq, value: Value::String(caselen_string(r)) }),
+            _ => *return_fields = Some(vec![field(r, 0), caselen_string(r)]),
+        }
+    }
+    q
+}
+
 pub fn name_string(r: &mut Rng) -> String {
     match r.below(4) {
         0 => string(r),
@@ -221,7 +254,7 @@ const SOUP: &[&str] = &[
     "(", ")", "[", "]", "{", "}", ",", ";", ":", ".", "=", "!=", ">=", "<=", ">", "<", "!", "-", "\"", "\\", "\"ok\"", "\"a b\"", "\"x\\\"y\"",
     "1", "0", "-1", "42", "1.5", "-0.0", "4294967295", "4294967296", "99999999999", "9223372036854775807", "9223372036854775808", "-9223372036854775808",
     "-9223372036854775809", "99999999999999999999", "1.", ".5", "1.5.2", "1-2", "007", "1e5", "٣", "½",
-    "é", "日本", "🚀", "@", "#", "\u{a0}", "\u{2003}", "\u{b}", "\u{c}", "\u{85}", "'", "*", "/", "+",
+    "é", "日本", "🚀", "@", "#", "\u{390}", "\u{fb01}x", "\"\u{149}\"", "\u{17f}", "\"\u{390}\u{fb03}\"", "\u{130}", "AS", "as", "\u{a0}", "\u{2003}", "\u{b}", "\u{c}", "\u{85}", "'", "*", "/", "+",
     "{\"k\":1}", "{\"a\":{\"b\":[1,2]}}", "{\"s\":\"}\"}", "{k: \"int\"}", "[ PING ; FLUSH ]",
     "SERIES", "line", "VS",
 ];
@@ -291,7 +324,7 @@ pub fn mutate(r: &mut Rng, s: &str) -> String {
         let i = r.below(cs.len() as u64) as usize;
         match r.below(9) {
             0 => { cs.remove(i); }
-            1 => { cs.insert(i, *r.pick(&['(', ')', '"', ' ', ',', '[', ']', '{', '}', ';', '=', '!', '.', '-', '9', 'x', '_', '\\', 'é', '@', '\u{a0}', '\n'])); }
+            1 => { cs.insert(i, *r.pick(&['(', ')', '"', ' ', ',', '[', ']', '{', '}', ';', '=', '!', '.', '-', '9', 'x', '_', '\\', 'é', '@', '\u{a0}', '\n', '\u{390}', '\u{fb01}', '\u{149}', '\u{17f}', '\u{131}'])); }
             2 => { cs[i] = *r.pick(&['(', ')', '"', ' ', ',', '=', '9', 'X', '\'', '🚀', '\t']); }
             3 => { let j = r.below(cs.len() as u64) as usize; cs.swap(i, j); }
             4 => { cs.truncate(i); }
